@@ -49,6 +49,9 @@ pub struct Scn {
     /// the server's stateless reset for a connection reaches the client 1 ms after that client closed
     /// it (a peer that lost its state): the connection drains early, while its close timer is running
     pub reset_after_close: bool,
+    /// the server advertises a preferred address (with a connection ID of its own, conveyed in the
+    /// transport parameters only)
+    pub preferred: bool,
 }
 
 fn plan(len: usize) -> Plan {
@@ -77,6 +80,7 @@ fn slot_i(m: &MW, i: usize) -> Option<&crate::sim::Slot<StdApp>> {
 pub fn build(base: Instant, s: &Scn, fates: BTreeMap<u64, Fate>) -> MW {
     let mut cfg = cfg_by_name("default");
     cfg.cid_len = s.cid_len;
+    cfg.preferred_address = s.preferred;
     cfg.cid_lifetime = s.cid_lifetime_ms.map(Duration::from_millis);
     let mut w = World::new(base, Box::new(move |_, _| StdApp::new(Side::Server, Plan::default())));
     w.fates = fates;
@@ -312,6 +316,50 @@ pub fn run(base: Instant, s: &Scn, devs: &Devs, alts: &[Fate], dump: bool) -> Ou
                 }
             }
         }
+        // ---- finally every connection is closed and drained: no connection ID the server's generator
+        // ever produced (whether it travelled in a frame or only in the transport parameters) may
+        // route anywhere
+        {
+            let now = m.w.now();
+            for n in 0..m.w.nodes.len() {
+                let chs: Vec<ConnectionHandle> = m.w.nodes[n].conns.keys().copied().collect();
+                for ch in chs {
+                    if let Some(sl) = m.w.nodes[n].conns.get_mut(&ch) {
+                        sl.conn.close(now, VarInt::from_u32(1), bytes::Bytes::from_static(b"end"));
+                    }
+                    m.w.settle_conn(n, ch);
+                }
+            }
+            let limit = m.w.t + Duration::from_secs(30);
+            let mut g = 0;
+            while g < 6000 && m.w.nodes.iter().any(|nd| !nd.conns.is_empty()) {
+                g += 1;
+                match m.w.next_event() {
+                    Some((at, _)) if at <= limit => {
+                        m.w.step();
+                    }
+                    _ => break,
+                }
+            }
+            let cl = m.w.nodes[SERVER].cid_len;
+            if cl > 0 && m.w.nodes[SERVER].conns.is_empty() {
+                m.w.nodes[SERVER].policy = AcceptPolicy::Ignore;
+                let (src, dst) = (m.w.nodes[1].addr, m.w.nodes[SERVER].addr);
+                for n in 0..(if cl == 1 { 256u64 } else { 120 }) {
+                    let mut g = crate::sim::CounterCid { len: cl, next: n, tag: m.w.nodes[SERVER].seed, lifetime: None };
+                    let cid = proto::ConnectionIdGenerator::generate_cid(&mut g);
+                    let mut d = vec![0x43u8];
+                    d.extend_from_slice(&cid);
+                    d.extend((0..30).map(|i| (i * 11 + 3) as u8));
+                    let at = m.w.t;
+                    let r = m.w.deliver(crate::sim::Flight { at, seq: 0, idx: u64::MAX, src, dst, ecn: None, data: d, injected: true });
+                    if let Routed::Conn(ch) = r {
+                        reset_viol.push(("forgotten-connection-id-routes".into(), format!("after every connection was closed and drained, a datagram addressed to connection ID {:02x?} (the {n}-th the server generated) was handed to connection handle {}", &cid[..], ch.0)));
+                        break;
+                    }
+                }
+            }
+        }
         (m, closed, stale, pre_lost, reset_viol, resets_sent, oracle_upto)
     });
     match r {
@@ -405,7 +453,7 @@ pub fn run(base: Instant, s: &Scn, devs: &Devs, alts: &[Fate], dump: bool) -> Ou
 
 pub fn scenarios(thorough: bool) -> Vec<Scn> {
     let mut v = vec![];
-    let mk = |name: &str, cid_len: usize| Scn { name: name.into(), cid_len, cid_lifetime_ms: None, addr_changed: vec![], close: vec![], fourth_at: None, window: (0, 30), same_client_endpoint_twice: false, fourth_when_forgotten: false, long_delay_ms: None, damaged_first: false, retry: false, reset_after_close: false };
+    let mk = |name: &str, cid_len: usize| Scn { name: name.into(), cid_len, cid_lifetime_ms: None, addr_changed: vec![], close: vec![], fourth_at: None, window: (0, 30), same_client_endpoint_twice: false, fourth_when_forgotten: false, long_delay_ms: None, damaged_first: false, retry: false, reset_after_close: false, preferred: false };
     for l in [8usize, 0, 1, 4, 20] {
         v.push(mk(&format!("cid{l}"), l));
     }
@@ -486,6 +534,15 @@ pub fn scenarios(thorough: bool) -> Vec<Scn> {
         s.window = (at.saturating_sub(4), at + 20);
         v.push(s);
     }
+    let mut s = mk("cid8-preferred-address", 8);
+    s.preferred = true;
+    v.push(s);
+    let mut s = mk("cid8-preferred-address+close1@30+fourth", 8);
+    s.preferred = true;
+    s.close = vec![(30, 1)];
+    s.fourth_at = Some(38);
+    s.window = (26, 46);
+    v.push(s);
     let mut s = mk("cid4-close+fourth", 4);
     s.close = vec![(20, 0), (26, 1)];
     s.fourth_at = Some(70);
